@@ -29,6 +29,7 @@ def run(prog, chk):
     sort_early_out(prog, chk, "C03.i")
     C.counting_against_moving_bound(prog, chk, "C03.j", SEQ + ("Array",))
     array_blocks_cover_capacity(prog, chk, "C03.k")
+    first_match_search(prog, chk, "C03.l")
     # `a.append(a)` / `l.append(l)` / `a.append(a[0])` are operation histories of this property as well: the argument is part of the
     # sequence that the operation reallocates or grows (rule shared with C04.e)
     c04_alias.alias_rules(prog, chk, "C03.h")
@@ -186,3 +187,62 @@ def array_blocks_cover_capacity(prog, chk, rid):
                 chk.ok(rid, f, "block covers _capacity for 5 argument values", f.where(news[0]), "evaluation", evals=5)
     if not n:
         chk.ok(rid, "Array", "only reserve() allocates element storage (checked by C04.arr)", "", "scan of new-expressions", nontrivial=False)
+
+
+def first_match_search(prog, chk, rid):
+    """search and removal by value designate the FIRST equal element of the sequence (what the reference sequence removes): the search
+    walks forward from the first element, and removal by value removes what that search found"""
+    import re
+    from .. import q
+    from ..facts import AnalysisBroken
+    chk.rule(rid, "ORD: List::find / Array::find walk forward from the first element (cursor started at _begin, stepped by next / ++), and "
+                  "List::remove(const T&) removes the element such a search designates (delegation to find, or a forward walk of its own)", floor=3)
+    n = 0
+    for cls, short in (("List", "find"), ("Array", "find"), ("List", "remove")):
+        for tn, fs in sorted(C.class_insts(prog, cls).items()):
+            for f in fs:
+                if f.cls != tn or f.short != short or len(f.params) != 1 or not f.blocks or "Iterator" in f.params[0]["t"] or \
+                   f.params[0]["t"] in ("unsigned long", "usize"):
+                    continue
+                n += 1
+                where = "%s:%s" % (f.file, f.line)
+                v = f.params[0]["n"]
+                if short == "remove":
+                    fnd = [c for c in q.calls(f) if (f.nodes[c].get("callee") or "").endswith("::find") and
+                           [q.no_casts(f.r(a)) for a in q.call_args(f, c)] == [v]]
+                    rem = [c for c in q.calls(f) if (f.nodes[c].get("callee") or "").endswith("::remove")]
+                    if fnd and any(q.no_casts(q.xr(f, q.call_args(f, c)[0])).startswith(q.no_casts(f.r(fnd[0]))[:20]) or f.r(fnd[0]) in q.xr(f, q.call_args(f, c)[0])
+                                   for c in rem if q.call_args(f, c)):
+                        chk.ok(rid, f, "removes what find(%s) designates" % v, f.where(fnd[0]), "delegation to the forward search", evals=2)
+                        continue
+                # a search of its own: every stepped cursor moves forward and starts at the first element
+                back, fwd = [], []
+                for st in q.stores(f):
+                    if st.rhs is None or st.op != "=":
+                        continue
+                    l, r = q.no_casts(f.r(st.lhs)), q.no_casts(f.r(st.rhs))
+                    ln = f.nodes[f.strip(st.lhs)]
+                    if ln["k"] != "DeclRefExpr" or ln["ref"].get("dk") != "local":
+                        continue
+                    if r == l + "->prev" or r == l + ".item->prev" or re.fullmatch(r"\(?%s - 1\)?" % re.escape(l), r):
+                        back.append(st.node)
+                    elif r == l + "->next" or r == l + ".item->next" or re.fullmatch(r"\(?%s \+ 1\)?" % re.escape(l), r):
+                        fwd.append(st.node)
+                for i, nd in enumerate(f.nodes):
+                    if nd["k"] in ("UnaryOperator", "CXXOperatorCallExpr") and (nd.get("op") or nd.get("oop")) in ("++", "--") and nd["c"]:
+                        tgt = f.nodes[f.strip(nd["c"][-1] if nd["k"] == "CXXOperatorCallExpr" and len(nd["c"]) > 1 else nd["c"][0])]
+                        if nd["k"] == "CXXOperatorCallExpr":
+                            tgt = f.nodes[f.strip(nd["c"][1])] if len(nd["c"]) > 1 else tgt
+                        if tgt["k"] == "DeclRefExpr" and tgt["ref"].get("dk") == "local" and ("*" in (tgt["ref"].get("t") or "") or "Iterator" in (tgt["ref"].get("t") or "")):
+                            (fwd if (nd.get("op") or nd.get("oop")) == "++" else back).append(i)
+                if back:
+                    chk.bad(rid, f, "search-walks-backwards", f.where(back[0]),
+                            "%s::%s(const T&) moves its cursor towards the front (`%s`): with equal elements it designates the LAST one, the "
+                            "reference sequence %s the first - [1 2 1 3] minus 1 becomes [1 2 3] instead of [2 1 3]" % (
+                                cls, short, q.no_casts(f.r(back[0]))[:40], "removes" if short == "remove" else "finds"), evals=2)
+                elif fwd:
+                    chk.ok(rid, f, "forward search", f.where(fwd[0]), "every stepped cursor moves by next / ++", evals=len(fwd) + 1)
+                else:
+                    raise AnalysisBroken("%s::%s(const T&): neither a delegation to find nor a stepped cursor was recognised" % (cls, short))
+    if n < 3:
+        raise AnalysisBroken("first_match_search: only %d of List::find, Array::find, List::remove(const T&) found" % n)
